@@ -6,7 +6,7 @@ PLAN = dict(
     functions_under_contract=['tracing-subscriber/src/filter/directive.rs: Ord/PartialOrd for StaticDirective, DirectiveSet::add, DirectiveSet::<StaticDirective>::{enabled,target_enabled,directives_for_target}, StaticDirective::cares_about_target', 'filter/targets.rs: Targets::{with_target,with_default,would_enable}'],
     trusted_base=["Kani 0.68 / CBMC 6.11 / CaDiCaL; Kani's std build (nightly-2026-08-21), not the repo toolchain's", 'core::fmt::Formatter::pad stubbed to Ok(()) with -Z stubbing (panic-message formatting on infeasible error branches; no harness that uses it reads formatted text)', 'cfg(kani) thread_local! shim and once_cell::sync::Lazy contract stub (see overlay_additions)', 'built with the default `smallvec` feature (FilterVec = SmallVec<[_; 8]>)'],
     assumptions=['the catalogue of targets/queries is a finite sample of prefix structures (equal, proper prefix, disjoint, empty, default)'],
-    not_covered=['FromStr / Display round trips (regex grammar, string building)', 'EnvFilter agreement with Targets', 'span-scoped directives (by_cs / by_id / scope, matchers)', 'field-name directives against metadata fields'],
+    not_covered=['with_targets / Extend / FromIterator / default_level: a harness for the shape [ab, ab again] + default exceeded the 24 GB memory cap', 'Display / FromStr round trip of Targets and StaticDirective: a harness for the smallest shape (one targeted directive + default, symbolic levels) did not finish in 900 s of CBMC (core::fmt formatting followed by str splitting / parsing)', 'FromStr / Display round trips (regex grammar, string building)', 'EnvFilter agreement with Targets', 'span-scoped directives (by_cs / by_id / scope, matchers)', 'field-name directives against metadata fields'],
     kani=[dict(
         crate="tracing-subscriber", tls_shim_crates=["tracing-core", "tracing-subscriber"], once_cell_stub=True, jobs=3,
         no_default_features=True, features=["std", "fmt", "registry"],   # FilterVec = Vec (SmallVec<[_; 8]> exhausts CBMC memory)
